@@ -7,7 +7,6 @@ import (
 	"fmt"
 	"math/rand"
 	"reflect"
-	"sort"
 	"strconv"
 	"strings"
 
@@ -326,6 +325,7 @@ type Gen struct {
 	Explicit bool // allow EXPLICIT member tags in random types (decoder does not support them)
 	// statistics for the evidence
 	Stats map[string]int
+	NoSet map[reflect.Type]bool // generated SEQUENCE types that rely on member order
 }
 
 func (g *Gen) hit(k string) { g.Stats[k]++ }
@@ -604,55 +604,95 @@ func (g *Gen) randStruct(depth int, kind string) reflect.Type {
 	if kind == "choice" {
 		fs = append(fs, reflect.StructField{Name: "Present", Type: reflect.TypeOf(int(0))})
 	}
-	used := map[uint64]bool{}
-	var tags []uint64
-	for len(tags) < n {
-		tn := g.tagNum()
-		if !used[tn] {
-			used[tn] = true
-			tags = append(tags, tn)
+	// ordered: a SEQUENCE that relies on the order of its members -- an identifier (context tag or, for a member
+	// declared without one, the universal identifier of its type) may be used again once every earlier member
+	// carrying it is mandatory, as ASN.1 allows.  Such a type is never used as a SET (NoSet).
+	ordered := kind == "seq" && g.R.Intn(3) == 0
+	type use struct{ optional bool }
+	used := map[string][]use{}
+	free := func(key string) bool {
+		if !ordered {
+			return len(used[key]) == 0
 		}
+		for _, u := range used[key] {
+			if u.optional {
+				return false
+			}
+		}
+		return true
 	}
-	if g.R.Intn(2) == 0 {
-		sort.Slice(tags, func(i, j int) bool { return tags[i] < tags[j] })
-	}
-	usedUniv := map[int]bool{}
+	reused := false
 	for i := 0; i < n; i++ {
 		ft := g.RandType(depth - 1)
-		tag := fmt.Sprintf("tagNum:%d", tags[i])
 		k := Classify(ft)
-		// a member declared without a context tag (matched by the universal identifier of its type), as long
-		// as no other untagged member of this structure has the same one
-		if u := untaggedIdent(ft); u != 0 && !usedUniv[u] && g.R.Intn(4) == 0 {
-			usedUniv[u] = true
-			tag = "untagged"
+		optional := kind != "choice" && g.R.Intn(3) == 0
+		// the identifier of the member: no context tag (matched by the universal identifier of its type), an
+		// identifier already in use where the order allows it, or a fresh context tag
+		tag, key := "", ""
+		if u := untaggedIdent(ft); u != 0 && g.R.Intn(4) == 0 && free(fmt.Sprintf("univ:%d", u)) {
+			key = fmt.Sprintf("univ:%d", u)
 			g.Stats["member:untagged"]++
+		} else {
+			for {
+				tn := g.tagNum()
+				if ordered && g.R.Intn(2) == 0 && i > 0 {
+					// try the tag of the previous member again
+					prev := fs[len(fs)-1].Tag.Get("ber")
+					if strings.HasPrefix(prev, "tagNum:") {
+						fmt.Sscanf(prev, "tagNum:%d", &tn)
+					}
+				}
+				key = fmt.Sprintf("ctx:%d", tn)
+				if free(key) {
+					tag = fmt.Sprintf("tagNum:%d", tn)
+					break
+				}
+			}
+		}
+		if len(used[key]) > 0 {
+			reused = true
+			g.Stats["member:identifier-reused"]++
+		}
+		used[key] = append(used[key], use{optional})
+		untagged := tag == ""
+		add := func(x string) {
+			if tag == "" {
+				tag = x
+			} else {
+				tag += "," + x
+			}
 		}
 		if kind == "choice" {
 			ft = reflect.PtrTo(ft)
 		} else {
-			if g.R.Intn(3) == 0 {
+			if optional {
 				if !(k == KSlice || k == KOctets) {
 					ft = reflect.PtrTo(ft)
 				}
-				tag += ",optional"
+				add("optional")
 			} else if g.R.Intn(4) == 0 {
 				ft = reflect.PtrTo(ft)
 			}
 		}
-		if k == KSeq && g.R.Intn(3) == 0 && tag != "untagged" {
-			tag += ",set"
+		if k == KSeq && g.R.Intn(3) == 0 && !untagged && !g.NoSet[ft] && !(ft.Kind() == reflect.Ptr && g.NoSet[ft.Elem()]) {
+			add("set")
 		}
-		if g.Explicit && kind != "choice" && k != KChoice && g.R.Intn(3) == 0 {
-			tag += ",explicit"
+		if g.Explicit && kind != "choice" && k != KChoice && !untagged && g.R.Intn(3) == 0 {
+			add("explicit")
 		}
-		if k == KString && tag != "untagged" {
+		if k == KString && !untagged {
 			// strings need a string type when their universal tag is visible
-			tag += []string{",utf8", ",ia5", ",graphic"}[g.R.Intn(3)]
+			add([]string{"utf8", "ia5", "graphic"}[g.R.Intn(3)])
 		}
-		tag = strings.TrimPrefix(strings.TrimPrefix(tag, "untagged,"), "untagged")
 		// a name starting with an upper-case letter other than Value/List/Present
 		fs = append(fs, reflect.StructField{Name: fmt.Sprintf("F%d", i), Type: ft, Tag: reflect.StructTag(`ber:"` + tag + `"`)})
 	}
-	return reflect.StructOf(fs)
+	t := reflect.StructOf(fs)
+	if reused {
+		if g.NoSet == nil {
+			g.NoSet = map[reflect.Type]bool{}
+		}
+		g.NoSet[t] = true
+	}
+	return t
 }
